@@ -1,2 +1,218 @@
-(* C12 — theorems are added below as they are proved. *)
-From Anko Require Import Env.EnvModel.
+(* C12 — the environment API behaves as a chain of dictionaries.
+   Statements only: each theorem is closed by [exact] of a lemma proved in
+   Env/EnvProofs.v or Env/EnvStep.v, with its assumptions printed beneath.
+   They hold for every value/type universe (V, T), every external-lookup
+   table, every heap satisfying the invariant, and every history.          *)
+From Coq Require Import String List Bool Arith.
+From Anko Require Import Base.Assoc Env.EnvModel Env.EnvProofs Env.EnvStep Env.EnvCases.
+Import ListNotations.
+
+Section C12.
+Context {V T : Type}.
+Variable as_env : V -> option nat.
+Variable mk_env : nat -> V.
+Variable can_addr : V -> bool.
+Variable ext_get : nat -> string -> option V.
+Variable ext_type : nat -> string -> option T.
+Variable basic_type : string -> option T.
+Hypothesis mk_env_is_env : forall m, as_env (mk_env m) = Some m.
+
+Notation scope := (@scope V T).
+Notation op := (@op V T).
+(* the code as it stands: GetEnvFromPath repaired *)
+Notation step := (@step V T as_env mk_env can_addr ext_get ext_type basic_type true).
+Notation run := (@run V T as_env mk_env can_addr ext_get ext_type basic_type true).
+Notation inv := (@inv V T as_env).
+Notation hist_valid := (@hist_valid V T as_env mk_env can_addr ext_get ext_type basic_type true).
+
+(* a lookup returns the nearest enclosing binding; a scope's external lookup
+   is consulted after its own table *)
+Theorem get_nearest : forall fuel (h : list scope) e sym,
+  wf h -> e < fuel -> e < length h ->
+  get_value ext_get fuel h e sym =
+    match first_answer h (fun sc => own_value ext_get sc sym) (chain fuel h e) with
+    | Some v => Ok v
+    | None => Err ErrUndefSym
+    end.
+Proof. exact (get_value_spec ext_get). Qed.
+
+(* ... built-in type names last *)
+Theorem type_nearest_ext_then_basic : forall fuel (h : list scope) e sym,
+  wf h -> e < fuel -> e < length h ->
+  get_type ext_type basic_type fuel h e sym =
+    match first_answer h (fun sc => own_type ext_type sc sym) (chain fuel h e) with
+    | Some t => Ok t
+    | None => match basic_type sym with Some t => Ok t | None => Err ErrUndefType end
+    end.
+Proof. exact (get_type_spec ext_type basic_type). Qed.
+
+(* set updates the nearest existing binding or fails without creating one *)
+Theorem set_nearest_or_fail : forall fuel (h : list scope) e sym v,
+  wf h -> e < fuel -> e < length h ->
+  set_value fuel h e sym v =
+    match nearest_binding h sym (chain fuel h e) with
+    | Some j => Ok (upd h j (fun sc => set_values sc (aset (sc_values sc) sym v)))
+    | None => Err ErrUndefSym
+    end.
+Proof. exact set_value_spec. Qed.
+
+(* define and delete touch only the addressed scope ... *)
+Theorem define_local : forall (h : list scope) e s v,
+  e < length h ->
+  step h (ODefine e s v) =
+    if contains_dot s then (h, RErr ErrDot)
+    else (upd h e (fun sc => set_values sc (aset (sc_values sc) s v)), RNone).
+Proof. exact (step_define as_env mk_env can_addr ext_get ext_type basic_type true mk_env_is_env). Qed.
+
+Theorem delete_local : forall (h : list scope) e s,
+  e < length h ->
+  step h (ODelete e s) = (upd h e (fun sc => set_values sc (adel (sc_values sc) s)), RNone).
+Proof. exact (step_delete as_env mk_env can_addr ext_get ext_type basic_type true mk_env_is_env). Qed.
+
+(* ... where [upd] changes exactly one scope *)
+Theorem upd_only_addressed : forall (h : list scope) e f i,
+  nth_error (upd h e f) i = if Nat.eqb i e then option_map f (nth_error h e) else nth_error h i.
+Proof. exact upd_nth. Qed.
+
+(* names containing '.' are rejected and nothing changes *)
+Theorem dotted_rejected : forall (h : list scope) (o : op) s,
+  contains_dot s = true ->
+  match o with
+  | ODefine _ s' _ | ODefineGlobal _ s' _ | ODefineType _ s' _ | ODefineGlobalType _ s' _ => s' = s
+  | _ => False
+  end ->
+  inv h -> op_valid as_env h o = true -> step h o = (h, RErr ErrDot).
+Proof. exact (EnvStep.dotted_rejected as_env mk_env can_addr ext_get ext_type basic_type true mk_env_is_env). Qed.
+
+(* an invalid request returns an error and leaves every scope unchanged *)
+Theorem invalid_no_change : forall (h : list scope) (o : op) c,
+  inv h -> op_valid as_env h o = true -> snd (step h o) = RErr c -> fst (step h o) = h.
+Proof. exact (step_err_unchanged as_env mk_env can_addr ext_get ext_type basic_type true mk_env_is_env). Qed.
+
+(* ... it never panics: for every history of well-addressed requests, no call
+   panics, runs out of fuel or is rejected as malformed, and the invariant is kept *)
+Theorem never_panics : forall (ops : list op) (h : list scope),
+  inv h -> hist_valid h ops ->
+  inv (fst (run h ops)) /\ Forall (@good_out V T) (snd (run h ops)).
+Proof.
+  intros ops h.
+  exact (run_good as_env mk_env can_addr ext_get ext_type basic_type true mk_env_is_env ops h eq_refl).
+Qed.
+
+(* every operation only touches the chain of the scope it addresses: scopes in a
+   protected set P that no addressed chain meets are the same after any history *)
+Theorem frame_for_every_history : forall (P : nat -> Prop) (ops : list op) (h : list scope),
+  inv h -> hist_valid h ops -> (forall i, P i -> i < length h) ->
+  hist_avoids as_env mk_env can_addr ext_get ext_type basic_type true P h ops ->
+  forall i, P i -> nth_error (fst (run h ops)) i = nth_error h i.
+Proof.
+  intros P ops h.
+  exact (run_frame as_env mk_env can_addr ext_get ext_type basic_type true mk_env_is_env P ops h eq_refl).
+Qed.
+
+(* Copy is an exact snapshot of one scope under a new identity *)
+Theorem copy_is_snapshot : forall (h : list scope) e sc,
+  nth_error h e = Some sc -> step h (OCopy e) = ((h ++ [sc])%list, REnv (length h)).
+Proof. exact (copy_snapshot as_env mk_env can_addr ext_get ext_type basic_type true mk_env_is_env). Qed.
+
+(* later changes on either side are invisible to the other: Copy *)
+Theorem copy_changes_invisible_to_original : forall (h : list scope) e sc (ops : list op),
+  inv h -> nth_error h e = Some sc ->
+  Forall (fun o => target o = Some (length h)) ops -> hist_valid (h ++ [sc])%list ops ->
+  nth_error (fst (run (h ++ [sc])%list ops)) e = Some sc.
+Proof.
+  intros h e sc ops.
+  exact (copy_isolates_original as_env mk_env can_addr ext_get ext_type basic_type true mk_env_is_env h e sc ops eq_refl).
+Qed.
+
+Theorem original_changes_invisible_to_copy : forall (h : list scope) e sc (ops : list op),
+  inv h -> nth_error h e = Some sc ->
+  Forall (fun o => exists t, target o = Some t /\ t < length h) ops -> hist_valid (h ++ [sc])%list ops ->
+  nth_error (fst (run (h ++ [sc])%list ops)) (length h) = Some sc.
+Proof.
+  intros h e sc ops.
+  exact (copy_isolated_from_original as_env mk_env can_addr ext_get ext_type basic_type true mk_env_is_env h e sc ops eq_refl).
+Qed.
+
+(* DeepCopy: the whole chain is fresh, and no history on one side changes a scope of the other *)
+Theorem deepcopy_chain_is_fresh : forall (h : list scope) e,
+  inv h -> e < length h ->
+  exists h' c, step h (ODeepCopy e) = (h', REnv c) /\ length h <= c /\ c < length h' /\
+               (forall i, In i (chain (length h') h' c) -> length h <= i) /\
+               (forall i, i < length h -> nth_error h' i = nth_error h i).
+Proof. exact (deep_copy_fresh as_env mk_env can_addr ext_get ext_type basic_type true mk_env_is_env). Qed.
+
+Theorem deepcopy_changes_invisible_to_original : forall (h : list scope) e h' c (ops : list op),
+  inv h -> e < length h -> step h (ODeepCopy e) = (h', REnv c) ->
+  Forall (fun o => target o = Some c) ops -> hist_valid h' ops ->
+  forall i, i < length h -> nth_error (fst (run h' ops)) i = nth_error h i.
+Proof.
+  intros h e h' c ops.
+  exact (deepcopy_isolates_original as_env mk_env can_addr ext_get ext_type basic_type true mk_env_is_env h e h' c ops eq_refl).
+Qed.
+
+Theorem original_changes_invisible_to_deepcopy : forall (h : list scope) e h' c (ops : list op),
+  inv h -> e < length h -> step h (ODeepCopy e) = (h', REnv c) ->
+  Forall (fun o => exists t, target o = Some t /\ t < length h) ops -> hist_valid h' ops ->
+  forall i, length h <= i -> i < length h' -> nth_error (fst (run h' ops)) i = nth_error h' i.
+Proof.
+  intros h e h' c ops.
+  exact (deepcopy_isolated_from_original as_env mk_env can_addr ext_get ext_type basic_type true mk_env_is_env h e h' c ops eq_refl).
+Qed.
+
+(* the symbol listing is the domain of the scope's own table *)
+Theorem symbols_are_domain : forall (h : list scope) e sc,
+  nth_error h e = Some sc ->
+  step h (OSymbols e) = (h, RSyms (akeys (sc_values sc))) /\
+  forall k, In k (akeys (sc_values sc)) <-> amem (sc_values sc) k = true.
+Proof.
+  intros h e sc E. split.
+  - exact (step_symbols as_env mk_env can_addr ext_get ext_type basic_type true mk_env_is_env h e sc E).
+  - intros k. symmetry. exact (amem_in_keys (sc_values sc) k).
+Qed.
+
+End C12.
+
+Print Assumptions get_nearest.
+Print Assumptions type_nearest_ext_then_basic.
+Print Assumptions set_nearest_or_fail.
+Print Assumptions define_local.
+Print Assumptions delete_local.
+Print Assumptions upd_only_addressed.
+Print Assumptions dotted_rejected.
+Print Assumptions invalid_no_change.
+Print Assumptions never_panics.
+Print Assumptions frame_for_every_history.
+Print Assumptions copy_is_snapshot.
+Print Assumptions copy_changes_invisible_to_original.
+Print Assumptions original_changes_invisible_to_copy.
+Print Assumptions deepcopy_chain_is_fresh.
+Print Assumptions deepcopy_changes_invisible_to_original.
+Print Assumptions original_changes_invisible_to_deepcopy.
+Print Assumptions symbols_are_domain.
+
+(* ---- non-vacuity: the hypotheses are met by a concrete, non-trivial history
+   in the universe the correspondence check uses (tokens and modules) ---- *)
+Open Scope string_scope.
+Definition ex_ops : list cop :=
+  [ONewRoot; ODefine 0 "a" (CTok 1 false); ONewEnv 0; ONewModule 1 "m"; ODefine 2 "b" (CEnv 0);
+   OSet 1 "a" (CTok 2 true); ODeepCopy 2; OCopy 1; ODeleteGlobal 1 "a"; OPath 1 ["m"; "b"];
+   ODefine 1 "x.y" (CTok 3 false); OGet 5 "a"].
+
+Example ex_history_valid :
+  @EnvStep.hist_valid cval ctype c_as_env CEnv c_can_addr c_ext_get c_ext_type c_basic true [] ex_ops.
+Proof. cbn. repeat split. Qed.
+
+Example ex_history_outputs :
+  snd (@EnvModel.run cval ctype c_as_env CEnv c_can_addr c_ext_get c_ext_type c_basic true [] ex_ops)
+  = [REnv 0; RNone; REnv 1; RModule 2 None; RNone; RNone; REnv 5; REnv 6; RNone; REnv 0;
+     RErr ErrDot; RVal (CTok 2 true)].
+Proof. vm_compute. reflexivity. Qed.
+
+(* the defect that was repaired (known_findings.txt, fixed: C12): with the
+   unrepaired first loop of GetEnvFromPath the model panics on this history *)
+Example path_panics_when_unfixed :
+  snd (@EnvModel.run cval ctype c_as_env CEnv c_can_addr c_ext_get c_ext_type c_basic false []
+         [ONewRoot; ONewEnv 0; ODefine 1 "a" (CTok 1 false); OPath 1 ["a"; "b"]])
+  = [REnv 0; REnv 1; RNone; RPanic].
+Proof. vm_compute. reflexivity. Qed.
